@@ -4,6 +4,30 @@ import json, subprocess
 
 HOOK_COMMITS = []  # filled from git log below
 
+# what the adversarial seeding rounds 4-7 added on top of the level texts below (DESIGN.md section 5, table)
+ADDED = {
+ "C01": " Added after seeding rounds 4-7: long sparse diagrams (40-120 spiders), hubs of degree 129-220, near-matches of gadget fusion, and sequences of 2-4 procedures on the same graph object.",
+ "C02": " Added: 7-8 qubit and 100-400 gate circuits, compound gates and rational phases (thirds, fifths) next to ancilla handling.",
+ "C03": " Added: 7-qubit circuits, three times the library cases (a CPU-bound hang is a violation), CLI inputs in variant spellings (several registers, unused classical registers, built-in CX, zero-gate programs), phase denominators above 4096 through the printed text, -o over existing files.",
+ "C04": " Added: long sparse diagrams and hubs (vertex ids above 64/128; all tuples probed, follow-ups sampled), near-matches of gadget fusion, and walks of up to 14 accepted applications on the same object with rejected checked calls interleaved.",
+ "C05": " Added: parallel-stress (T-count 9-13/18, about 120 000 parallel runs per quick run over pools of 2-16 threads) and sherlock-nosimp (T-dense diagrams, repeated randomised runs with the step log on).",
+ "C06": " Added: the same circuits in variant spellings (several registers, built-in CX, mixed angle expressions, decimals, comments, unused classical registers), -o over existing files.",
+ "C07": " Added: Sum / Product over empty and one-element iterators.",
+ "C08": " Added: 8-9 qubit circuits, diagrams with 16-17 open indices, in-place helpers on 2^15-2^17 entries, one-wire chains of 200-3600 spiders (thousands of Hadamard edges), random cosmetic coordinates.",
+ "C09": " Added: histories on 40-220 vertices with hubs above degree 128 and tiny neighbourhood selections for subgraph_from_vertices.",
+ "C10": " Added: 9-40 variables with sampled assignments (2n+26), variable numbers around 63/127/2^16/2^20, scalar-factor tables of 60-300 entries, explicit measurement outcomes that are parities of several variables, rule walks under assignments.",
+ "C11": " Added: chains of plug / adjoint / append_graph / clone on the same receiver.",
+ "C12": " Added: 7-8 qubit pairs of every construction.",
+ "C13": " Added: a second round trip judged against the original, files of 100-230 kB, writing over existing (longer) files.",
+ "C14": " Added: circuits assembled with push_front / reverse, Display and to_qasm, from_qasm and from_file, comment lines, 300 qubits / 2500 gates, chains of 5-15 nested gate definitions (supported and hiding unsupported constructs).",
+ "C15": " Added: 1000-4200 gate circuits, very unequal concatenations, parity phases of arity 8, denominators up to 2^61 incl. phases one unit away from Clifford values, operands that keep their deque layout (wrapped, spare capacity) when moved into an operator.",
+ "C16": " Added: operands whose denominators share a factor of 2^30-2^52, Fibonacci-like continued fractions of up to 90 terms with bounds at late convergents.",
+ "C17": "",
+ "C18": " Added: graphs of 65-175 vertices (bit-row cut-rank oracle), the start tree installed with new + set_init_decomp, a second run() on the same annealer.",
+ "C19": " Added: 16-300 qubit instances, million-gate circuits with probabilities summing to exactly one (128 million gates per quick run), parameters written into the builders' public fields on fresh and reused builders.",
+ "C20": " Added: sparse diagrams of 20-140 spiders, vertex ids above 2^32, construction detours (extra spiders added and removed in different orders, a rejected named insertion), a second call on the diagram left by the first.",
+}
+
 CHECKS = {
  # id: (built, technique, level text, level note, design ref)
  "C01": (True, "runtime monitor: before/after snapshots of every simplifier x backend evaluated by an independent exact ZX evaluator; rewrite-budget hook for termination; panics as data",
@@ -86,7 +110,7 @@ def main():
               "evidence_file": f"/verif/evidence/{pid}.json",
               "replay_cmd_template": f"./check {pid} --replay {{path}}",
               "engine": "qvmon",
-              "level_claimed": {"category":"exploration","text":ent[2],"design_ref":ent[4]},
+              "level_claimed": {"category":"exploration","text":ent[2]+ADDED.get(pid,""),"design_ref":ent[4]},
               "level_note": ent[3],
               "technique": ent[1],
             })
